@@ -348,6 +348,10 @@ class Typer:
             return ("list", self.type_of(e.elt, d))
         if isinstance(e, ast.GeneratorExp):
             return ("iter", self.type_of(e.elt, d))
+        if isinstance(e, (ast.Dict, ast.DictComp)):
+            return ("dict", None, None)
+        if isinstance(e, (ast.Set, ast.SetComp)):
+            return ("iter", None)
         if isinstance(e, ast.Tuple):
             return ("tuple", [self.type_of(x, d) for x in e.elts])
         if isinstance(e, ast.IfExp):
@@ -414,6 +418,15 @@ class Typer:
             return ("list", self.elem_type(t))
         if fname == "super" and not e.args:
             return None
+        if fname in ("dict", "defaultdict", "collections.defaultdict", "OrderedDict"):
+            return ("dict", None, None)
+        if fname in ("set", "frozenset"):
+            return ("iter", None)
+        if fname in ("zip", "enumerate", "map", "filter", "range", "iter"):
+            return ("iter", None)
+        if isinstance(f, ast.Subscript) and (dotted(f.value) or "") in ("dict", "list", "set", "defaultdict"):
+            h = dotted(f.value)
+            return ("dict", None, None) if "dict" in h else (("list", None) if h == "list" else ("iter", None))
         ft = self.type_of(f, d)
         if isinstance(ft, tuple):
             if ft[0] == "class":
